@@ -704,7 +704,9 @@ func (s *scanner) stateAnyAnnotationStart(c byte) (st state, err error) {
 }
 
 func (s *scanner) stateInlineAnnotation(c byte) (state, error) {
-	if bytes.IsBlank(c) {
+	// Only spaces are skipped: a line break right after the slashes ends the
+	// (empty) annotation, it does not move the annotation to the next line.
+	if bytes.IsSpace(c) {
 		return scanSkip, nil
 	}
 
